@@ -127,8 +127,20 @@ class Model(Node, CanParse):
 
     def firstset(self, k: int = 1) -> ffset:
         if not getattr(self, '_firstset', None):
-            self._firstset = self._first(k, defaultdict(set))
+            self._firstset = self._first(k, self._rule_firstsets())
         return self._firstset
+
+    def _rule_firstsets(self) -> dict[str, ffset]:
+        # NOTE the nodes below this one store the first set they compute, so
+        #   they must be given the first sets of the rules as the grammar worked
+        #   them out: with an empty table they would replace what they hold by
+        #   something poorer, and results would depend on who asked first
+        f: dict[str, ffset] = defaultdict(set)
+        grammar = self._grammar_ref() if self._grammar_ref is not None else None
+        if grammar is not None and grammar is not self:
+            for rule in getattr(grammar, 'rules', ()):
+                f[rule.name] |= rule._firstset
+        return f
 
     def followset(self, _k: int = 1) -> ffset:
         if not getattr(self, '_follow_set', None):
